@@ -53,7 +53,12 @@ impl Out {
         let mut obs = meta_body(&T::type_info());
         strip_type_names(&mut obs);
         let mp: Vec<&str> = modpath.split("::").collect();
-        let ev = json!({"ev": "Derived", "id": id, "docs_feature": cfg!(feature = "docs"), "obs": obs, "ftids": ftids, "ptids": ptids, "modpath": mp,
+        // the parameters as a consumer of the PORTABLE registry sees them: [name, has a type]
+        let mut r = Registry::new();
+        let tid = r.register_type(&meta_type::<T>()).id;
+        let p: PortableRegistry = r.into();
+        let pparams: Vec<Value> = p.resolve(tid).map(|t| t.type_params.iter().map(|q| json!([q.name, q.ty.is_some()])).collect()).unwrap_or_default();
+        let ev = json!({"ev": "Derived", "id": id, "docs_feature": cfg!(feature = "docs"), "obs": obs, "ftids": ftids, "ptids": ptids, "modpath": mp, "pparams": pparams,
                         "phantom": t::<core::marker::PhantomData<()>>()});
         self.put(&ev);
         let mut fe = crate::extract::faithful_event(&[meta_type::<T>()]);
